@@ -24,12 +24,13 @@ route modelled here; that is tied by the correspondence run (stream `tok`), as f
 `tokEvents T cfg chunks` is the whole call `Tokenizer.Load` (reader entry, `cfg.reader = true`) or
 `Tokenizer.Parse` (one chunk): every event handed over, ALSO those before an error.
 `tokEventsIdeal` is the same for a reader entry that ignores empty reads the way `Json.run` does; the
-Go code does not quite do that (`emptyFirstReadNoBom`, known finding C17-empty-first-read-bom): a
-FIRST `Read` that returns 0 bytes without an error makes `Load` skip its byte-order-mark handling
-altogether (the test `3 < len(buf) && buf[0] == 0xEF` is made on the first buffer only, and the
-top-up loop needs `0 < cnt`), so a mark delivered by a later read is a syntax error. `tokEvents`
-carries that deviation behind the flag; the two agree on every chunking whose first read is not
-empty (`tokEvents_eq_ideal`). Core Lean only (linked into the driver). -/
+Go code did not quite do that before fix c109a1a (`emptyFirstReadNoBom`, finding
+C17-empty-first-read-bom): a FIRST `Read` that returned 0 bytes without an error made `Load` skip its
+byte-order-mark handling altogether (the test `3 < len(buf) && buf[0] == 0xEF` is made on the first
+buffer only, and the top-up loop needed `0 < cnt`), so a mark delivered by a later read was a syntax
+error. `tokEventsWith dev` carries that deviation behind a flag (off now: `tokEvents` IS
+`tokEventsIdeal`, `tokEvents_eq_ideal_now`); with the flag on the two agree on every chunking whose
+first read is not empty (`tokEvents_eq_ideal`). Core Lean only (linked into the driver). -/
 namespace OjgVerif.Match
 open OjgVerif OjgVerif.Json
 
@@ -122,25 +123,31 @@ def tokEventsIdeal (chunks : List Bytes) : List Event :=
     | .strip r => evAfterBom T cfg (r :: rest)
     | .keep => evAfterBom T cfg (c :: rest)
 
-/-- Deviation of the code as it is (known finding C17-empty-first-read-bom; set to `false` when the
-proposed fix `C17_empty_first_read_bom` is applied): an empty FIRST read switches the byte-order-mark
-handling of `Tokenizer.Load` off. -/
-def emptyFirstReadNoBom : Bool := true
+/-- Deviation of the code BEFORE fix c109a1a (finding C17-empty-first-read-bom, now fixed): an empty
+FIRST read switched the byte-order-mark handling of `Tokenizer.Load` off. The flag is off for the
+code as it is; `tokEventsWith true` keeps the old behaviour for the recorded witness. -/
+def emptyFirstReadNoBom : Bool := false
 
-/-- every handler call of one `Tokenizer.Load` / `Tokenizer.Parse` of the code as it is -/
-def tokEvents (chunks : List Bytes) : List Event :=
-  match cfg.reader && emptyFirstReadNoBom, chunks with
+/-- every handler call of one `Tokenizer.Load` / `Tokenizer.Parse`, with (`dev = true`) or without
+the deviation -/
+def tokEventsWith (dev : Bool) (chunks : List Bytes) : List Event :=
+  match cfg.reader && dev, chunks with
   | true, [] :: rest => evAfterBom T cfg rest     -- the first buffer is empty: no mark is looked for
   | _, _ => tokEventsIdeal T cfg chunks
 
+/-- every handler call of one `Tokenizer.Load` / `Tokenizer.Parse` of the code as it is -/
+def tokEvents (chunks : List Bytes) : List Event := tokEventsWith T cfg emptyFirstReadNoBom chunks
+
 /-- the outcome of the same call (`Json.run`, with the same deviation) -/
-def tokRun (chunks : List Bytes) : Except Err (List JV) :=
-  match cfg.reader && emptyFirstReadNoBom, chunks with
+def tokRunWith (dev : Bool) (chunks : List Bytes) : Except Err (List JV) :=
+  match cfg.reader && dev, chunks with
   | true, [] :: rest =>
     match Json.runChunks T cfg {} rest with
     | .error e => .error e
     | .ok s => Json.finish T s
   | _, _ => Json.run T cfg chunks
+
+def tokRun (chunks : List Bytes) : Except Err (List JV) := tokRunWith T cfg emptyFirstReadNoBom chunks
 
 /-- the configuration of `oj.Tokenize` / `oj.TokenizeLoad` behind `oj.Match*`: several documents
 allowed (`OnlyOne` is false in the zero `Tokenizer`), no integer fast loop that changes values -/
